@@ -973,22 +973,46 @@ class Interp:
             self.ret(st, dst, Adt("ArenaHandle", {}), nxt)
             return None
         # ---- find_stuff_sequence's own body: windows(2).enumerate() and the array comparison
-        if re.match(r"^core::slice::<impl \[u8\]>::windows$", c):
+        m = re.match(r"^core::slice::<impl \[u8\]>::(windows|chunks)$", c)
+        if m:
             sl = self.as_slice(st, args[0])
-            self.ret(st, dst, Adt("Windows", {"items": sl, "size": args[1], "pos": 0}), nxt)
+            if not isinstance(args[1], int) or args[1] <= 0:
+                return [Result("panic", None, st, "window / chunk size must be a positive constant")]
+            self.ret(st, dst, Adt("SliceCursor", {"kind": m.group(1), "items": sl, "size": args[1], "pos": 0, "count": 0}), nxt)
             return None
-        if re.match(r"^<Windows<'_, u8> as Iterator>::enumerate$", c) or re.match(r"^<Enumerate<Windows<'_, u8>> as IntoIterator>::into_iter$", c):
+        if re.match(r"^<(Windows|Chunks)<'_, u8> as Iterator>::enumerate$", c) or re.match(r"^<Enumerate<(Windows|Chunks)<'_, u8>> as IntoIterator>::into_iter$", c):
             self.ret(st, dst, args[0], nxt)
             return None
-        if re.match(r"^<Enumerate<Windows<'_, u8>> as Iterator>::next$", c):
+        if re.match(r"^<Enumerate<(Windows|Chunks)<'_, u8>> as Iterator>::next$", c):
             ref = args[0]
             w = self.val(st, ref)
-            items, size, pos = w.get("items"), w.get("size"), w.get("pos")
-            if pos + size > len(items.elems):
-                self.ret(st, dst, Adt("None", []), nxt)
+            items, size, pos, cnt = w.get("items"), w.get("size"), w.get("pos"), w.get("count")
+            n = len(items.elems)
+            if w.get("kind") == "windows":
+                if pos + size > n:
+                    self.ret(st, dst, Adt("None", []), nxt)
+                else:
+                    self.write_at(st, ref.key, list(ref.proj), w.with_field("pos", pos + 1).with_field("count", cnt + 1))
+                    self.ret(st, dst, Adt("Some", [Adt("tuple", [cnt, Slice(items.elems[pos:pos + size], items.tag)])]), nxt)
             else:
-                self.write_at(st, ref.key, list(ref.proj), w.with_field("pos", pos + 1))
-                self.ret(st, dst, Adt("Some", [Adt("tuple", [pos, Slice(items.elems[pos:pos + size], items.tag)])]), nxt)
+                if pos >= n:
+                    self.ret(st, dst, Adt("None", []), nxt)
+                else:
+                    self.write_at(st, ref.key, list(ref.proj), w.with_field("pos", pos + size).with_field("count", cnt + 1))
+                    self.ret(st, dst, Adt("Some", [Adt("tuple", [cnt, Slice(items.elems[pos:pos + size], items.tag)])]), nxt)
+            return None
+        if re.match(r"^core::slice::<impl \[u8\]>::contains$", c):
+            sl = self.as_slice(st, args[0])
+            x = self.val(st, args[1])
+            conds = []
+            for e in sl.elems:
+                if isinstance(e, int) and isinstance(x, int):
+                    if e == x:
+                        self.ret(st, dst, True, nxt)
+                        return None
+                    continue
+                conds.append("(= %s %s)" % (self.term(e, 8), self.term(x, 8)))
+            self.ret(st, dst, False if not conds else SymB(conds[0] if len(conds) == 1 else "(or %s)" % " ".join(conds)), nxt)
             return None
         if re.match(r"^<&\[u8\] as PartialEq<\[u8; \d+\]>>::eq$", c):
             a, b = self.as_slice(st, self.val(st, args[0])), self.as_slice(st, self.val(st, args[1]))
